@@ -14,8 +14,14 @@ import (
 	"strconv"
 	"strings"
 
+	"github.com/DataDog/datadog-agent/pkg/obfuscate"
+	"github.com/GuanceCloud/grok"
+	"github.com/GuanceCloud/platypus/pkg/inimpl/guancecloud/funcs"
+	"github.com/antchfx/xmlquery"
 	conv "github.com/spf13/cast"
 )
+
+var grokGlobal = grok.CopyDenormalizedDefalutPatterns()
 
 func oracleMain() {
 	sc := bufio.NewScanner(os.Stdin)
@@ -123,6 +129,102 @@ func answer(q string) (res string) {
 			return "err:" + err.Error()
 		}
 		return okHex(render(m))
+	case "grokdenorm", "grokcompile", "grokrun":
+		// arg: <defs> ':' <hexpattern> [ ':' t|f ':' <hexsubject> ]   defs: hexalias=hexpattern, ...
+		parts := strings.Split(arg, ":")
+		if len(parts) < 2 {
+			return "err:syntax"
+		}
+		local := map[string]*grok.GrokPattern{}
+		storage := grok.PatternStorage{local, grokGlobal}
+		if parts[0] != "" {
+			for _, d := range strings.Split(strings.TrimSuffix(parts[0], ","), ",") {
+				kv := strings.SplitN(d, "=", 2)
+				if len(kv) != 2 {
+					return "err:defs-syntax"
+				}
+				gp, err := grok.DenormalizePattern(unhexs(kv[1]), storage)
+				if err != nil {
+					return "err:def " + err.Error()
+				}
+				local[unhexs(kv[0])] = gp
+			}
+		}
+		pat := unhexs(parts[1])
+		if eng == "grokdenorm" {
+			if _, err := grok.DenormalizePattern(pat, storage); err != nil {
+				return "err:" + err.Error()
+			}
+			return okHex("")
+		}
+		re, err := grok.CompilePattern(pat, storage)
+		if err != nil {
+			return "err:" + err.Error()
+		}
+		if eng == "grokcompile" {
+			return okHex("")
+		}
+		if len(parts) != 4 {
+			return "err:syntax"
+		}
+		m, _, err := re.RunWithTypeInfo(unhexs(parts[3]), parts[2] == "t")
+		if err != nil {
+			return "err:" + err.Error()
+		}
+		mm := map[string]any{}
+		for k, v := range m {
+			switch v.(type) {
+			case nil, int64, float64, string, bool:
+				mm[k] = v
+			}
+		}
+		return okHex(render(mm))
+	case "datefmt":
+		a := strings.SplitN(arg, ":", 3)
+		if len(a) != 3 {
+			return "err:syntax"
+		}
+		p := &vparser{s: a[0]}
+		v := p.value(nil)
+		if p.bad {
+			return "err:render-syntax"
+		}
+		r, err := funcs.DateFormatHandle(v, unhexs(a[1]), unhexs(a[2]))
+		if err != nil {
+			return "err:" + err.Error()
+		}
+		return okHex(r)
+	case "timestamp":
+		a := strings.SplitN(arg, ":", 2)
+		if len(a) != 2 {
+			return "err:syntax"
+		}
+		n, err := funcs.TimestampHandle(unhexs(a[1]), unhexs(a[0]))
+		if err != nil {
+			return "err:" + hex.EncodeToString([]byte(err.Error()))
+		}
+		return okHex(strconv.FormatInt(n, 10))
+	case "xml":
+		a := strings.SplitN(arg, ":", 2)
+		if len(a) != 2 {
+			return "err:syntax"
+		}
+		doc, err := xmlquery.Parse(strings.NewReader(unhexs(a[1])))
+		if err != nil {
+			return "err:parse"
+		}
+		dest, err := xmlquery.Query(doc, unhexs(a[0]))
+		if err != nil || dest == nil {
+			return "err:query"
+		}
+		return okHex(dest.InnerText())
+	case "sql":
+		o := obfuscate.NewObfuscator(obfuscate.Config{})
+		oq, err := o.ObfuscateSQLString(unhexs(arg))
+		if err != nil {
+			return "err:sql"
+		}
+		return okHex(oq.Query)
 	case "sprintf":
 		j := strings.IndexByte(arg, ':')
 		if j < 0 {
